@@ -234,10 +234,24 @@ def check(chk):
     chk.judge(len(marks) == 1 and marks[0].value.value == 0, 'C06.sentinel', es, '_encode_segment marks a segment left uncompressed with length 0',
               'the "left uncompressed" marker is %s' % [src(m.value) for m in marks])
     s = src(es)
-    chk.judge('self.encode_header(buffer, payload_length, uncompressed_payload_length, is_self_contained)' in s and 'payload_length = len(encoded_payload)' in s,
-              'C06.layout', es, '_encode_segment passes len(encoded payload), uncompressed length, flag to encode_header', 'argument roles to encode_header changed')
-    chk.judge('compute_crc32(encoded_payload, CRC32_INITIAL)' in s and s.index('buffer.write(encoded_payload)') < s.index('write_uint_le(buffer, payload_crc)'),
-              'C06.crc', es, '_encode_segment: CRC32 over the encoded payload, written after it', 'payload CRC no longer covers / follows the encoded payload')
+    from ..sem import resolve as _res06, flow_of as _flow06
+    ges, _fes = _flow06(es)
+    # the payload as it goes on the wire: the argument of the buffer.write(...) that is not the header
+    wr = [n for n in ges.stmt_nodes() if n.kind == 'stmt' and isinstance(n.ast, ast.Expr) and isinstance(n.ast.value, ast.Call) and src(n.ast.value.func) == 'buffer.write' and len(n.ast.value.args) == 1]
+    eh = [c_ for c_ in body_walk(es) if isinstance(c_, ast.Call) and src(c_.func) == 'self.encode_header']
+    okh = len(wr) == 1 and len(eh) == 1 and len(eh[0].args) == 4
+    if okh:
+        wire = src(wr[0].ast.value.args[0])
+        a_ = [src(_res06(es, x, keep=(wire,))) for x in eh[0].args]
+        okh = a_ == ['buffer', 'len(%s)' % wire, 'uncompressed_payload_length', 'is_self_contained']
+    chk.judge(okh, 'C06.layout', es, '_encode_segment passes len(encoded payload), uncompressed length, flag to encode_header', 'argument roles to encode_header changed')
+    crcw = [n for n in ges.stmt_nodes() if n.kind == 'stmt' and isinstance(n.ast, ast.Expr) and isinstance(n.ast.value, ast.Call) and src(n.ast.value.func) == 'write_uint_le'
+            and len(n.ast.value.args) >= 2 and src(n.ast.value.args[0]) == 'buffer']
+    okc = len(wr) == 1 and len(crcw) == 1
+    if okc:
+        crc_e = src(_res06(es, crcw[0].ast.value.args[1], keep=(src(wr[0].ast.value.args[0]),)))
+        okc = crc_e == 'compute_crc32(%s, CRC32_INITIAL)' % src(wr[0].ast.value.args[0]) and ges.dominates(wr[0], crcw[0])
+    chk.judge(okc, 'C06.crc', es, '_encode_segment: CRC32 over the encoded payload, written after it', 'payload CRC no longer covers / follows the encoded payload')
 
     # ---- CRC before use
     for fn, raise_marker in ((dec, 'actual_header_crc != expected_header_crc'), (dd, 'actual_payload_crc != expected_payload_crc')):
@@ -313,7 +327,12 @@ def check(chk):
     if n_b < 2:
         raise AnalysisError('_process_segment_buffer: incomplete-data paths not recognised')
     s = src(psb)
-    chk.judge('readable_bytes >= self._segment_codec.header_length_with_crc' in s and 'readable_bytes >= segment_header.segment_length' in s,
+    gp_, fp_ = _flow06(psb)
+    dh_ = [n for n in gp_.stmt_nodes() if n.kind == 'stmt' and any(isinstance(x, ast.Call) and src(x.func).endswith('.decode_header') for x in ast.walk(n.ast))]
+    dc_ = [n for n in gp_.stmt_nodes() if n.kind == 'stmt' and any(isinstance(x, ast.Call) and src(x.func).endswith('_segment_codec.decode') for x in ast.walk(n.ast))]
+    oka = len(dh_) == 1 and len(dc_) == 1 and all(fa.knows('readable_bytes < self._segment_codec.header_length_with_crc') is False for fa, _c in fp_.at(dh_[0])) and \
+        all(fa.knows('readable_bytes < segment_header.segment_length') is False for fa, _c in fp_.at(dc_[0]))
+    chk.judge(oka,
               'C06.buffer', psb, 'header decoded only with header+CRC bytes available; segment decoded only with segment_length bytes available',
               'availability tests before decode_header / decode changed')
     rib = conn.func('_ConnectionIOBuffer.reset_io_buffer')
